@@ -162,7 +162,7 @@ def r2(ctx):
                 t = U(asg.test).replace(" ", "")
                 outer = par.get(asg)
                 ok = ((t == "rngisNone" and asg.body is c and U(asg.orelse) == "rng") or (t == "rngisnotNone" and asg.orelse is c and U(asg.body) == "rng")) \
-                    and isinstance(outer, ast.Assign) and U(outer.targets[0]) == "rng"
+                    and isinstance(outer, ast.Assign) and len(outer.targets) == 1 and isinstance(outer.targets[0], ast.Name)
             ctx.check("R2", f"{f.site()}::default_rng()", ok, "unseeded generator only as the `if rng is None` fallback of parameter rng",
                       "an unseeded default_rng() is created outside the `if rng is None` fallback of an `rng` parameter: output cannot be reproduced")
 
